@@ -220,13 +220,38 @@ func (ex *Exec) step(fr *Frame, in ssa.Instruction, st *State, cur *smt.Term) *s
 		return cur
 	case *ssa.Defer:
 		fr.defers = append(fr.defers, x)
+		if fr.deferCond == nil {
+			fr.deferCond = map[*ssa.Defer]*smt.Term{}
+		}
+		fr.deferCond[x] = cur
 		return cur
 	case *ssa.RunDefers:
 		for i := len(fr.defers) - 1; i >= 0; i-- {
 			d := fr.defers[i]
 			if !d.Block().Dominates(fr.curBlock) {
-				ex.note(ex.Abstr, "conditional-defer")
-				ex.havocAll(st)
+				inLoop := false
+				for _, li := range fr.loops {
+					if li.blocks[d.Block()] {
+						inLoop = true
+					}
+				}
+				if inLoop {
+					ex.note(ex.Abstr, "conditional-defer-in-loop")
+					ex.havocAll(st)
+					continue
+				}
+				if !blockReaches(d.Block(), fr.curBlock) {
+					continue // no path from the defer statement to this return
+				}
+				// registered on some paths only: the call runs exactly on the paths that passed the defer statement
+				cond := fr.deferCond[d]
+				before := st.clone()
+				ex.noCover++ // (on the other paths the guarded call is unreachable by construction)
+				_, cur2 := ex.call(fr, &d.Call, d, st, c.And(cur, cond), nil)
+				ex.noCover--
+				merged := ex.mergeStates([]*smt.Term{cond, c.Not(cond)}, []*State{st, before})
+				*st = *merged
+				cur = c.Or(cur2, c.And(cur, c.Not(cond)))
 				continue
 			}
 			_, cur = ex.call(fr, &d.Call, d, st, cur, nil)
@@ -546,7 +571,30 @@ func (ex *Exec) equal(a, b Val, st *State) *smt.Term {
 	if _, ok := b.T.Underlying().(*types.Interface); ok {
 		return c.Eq(a.Tm, b.Tm)
 	}
+	if r := ex.emptyStrEq(a.Tm, b.Tm); r != nil {
+		return r
+	}
 	return c.Eq(a.Tm, b.Tm)
+}
+
+// emptyStrEq: comparing a string with the empty literal is comparing its length with zero (the empty string is
+// the only string of length zero).
+func (ex *Exec) emptyStrEq(a, b *smt.Term) *smt.Term {
+	if a == nil || b == nil || a.Sort != ex.W.Str {
+		return nil
+	}
+	empty, have := ex.W.strLits[""]
+	if !have {
+		return nil
+	}
+	c := ex.W.C
+	if a == empty && b != empty {
+		return c.Eq(ex.strLen(b), c.IntLit(0))
+	}
+	if b == empty && a != empty {
+		return c.Eq(ex.strLen(a), c.IntLit(0))
+	}
+	return nil
 }
 
 func (ex *Exec) sliceInstr(fr *Frame, x *ssa.Slice, st *State, cur *smt.Term) *smt.Term {
@@ -665,7 +713,8 @@ func (ex *Exec) convert(v Val, to types.Type, st *State) Val {
 		if el := to.Underlying().(*types.Slice).Elem(); bitsOf(el) == 8 {
 			ex.assume(c.Eq(ln, ex.strLen(v.Tm)))
 		} else {
-			ex.assume(c.Le(ln, ex.strLen(v.Tm)))
+			// one rune per 1..4 bytes
+			ex.assume(c.And(c.Le(ln, ex.strLen(v.Tm)), c.Ge(c.Mul(c.IntLit(4), ln), ex.strLen(v.Tm))))
 		}
 		ex.assume(c.Le(c.IntLit(0), ex.strLen(v.Tm)))
 		k := ex.keyElem(to.Underlying().(*types.Slice).Elem())
@@ -859,4 +908,26 @@ func (ex *Exec) mapLookupTerm(g *ssa.Global, mt *types.Map, key *smt.Term, comma
 		return Val{T: resT, Tup: []Val{{T: mt.Elem(), Tm: val}, {T: types.Typ[types.Bool], Tm: okT}}}
 	}
 	return Val{T: mt.Elem(), Tm: val}
+}
+
+// blockReaches: there is a control-flow path from a to b.
+func blockReaches(a, b *ssa.BasicBlock) bool {
+	seen := map[*ssa.BasicBlock]bool{}
+	var walk func(x *ssa.BasicBlock) bool
+	walk = func(x *ssa.BasicBlock) bool {
+		if x == b {
+			return true
+		}
+		if seen[x] {
+			return false
+		}
+		seen[x] = true
+		for _, s := range x.Succs {
+			if walk(s) {
+				return true
+			}
+		}
+		return false
+	}
+	return walk(a)
 }
